@@ -34,11 +34,19 @@ type c19EPCase struct {
 	// the refusal point (megabytes+1) MiB: -1 = one byte below, 0 = exactly at, +n = above
 	Delta     int `json:"delta"`
 	FirstSize int `json:"first_write"` // size of the probe session's first write (0..1024 piggy-backs)
+	// AppRead: size of the buffer the server application reads with (0 = 65536): smaller than a segment's
+	// payload makes one segment span several Read calls
+	AppRead int `json:"app_read,omitempty"`
+	// Multiplex: client multiplexing factor; with KeepOpen the limited user's first session stays open
+	// during the probe, so that the probe session travels on the same connection
+	Multiplex int  `json:"multiplex,omitempty"`
+	KeepOpen  bool `json:"keep_open,omitempty"`
 }
 
 var c19Uniq int64
 
 type c19Srv struct {
+	appRead int
 	mu    sync.Mutex
 	read  map[string]int // per user name: bytes the server applications read
 	wrote map[string]int
@@ -71,7 +79,11 @@ func (s *c19Srv) serve(w *sim.World) {
 		s.mu.Unlock()
 		go func(c net.Conn) {
 			name := ""
-			buf := make([]byte, 65536)
+			size := 65536
+			if s.appRead > 0 {
+				size = s.appRead
+			}
+			buf := make([]byte, size)
 			for {
 				n, err := c.Read(buf)
 				if u, ok := c.(userNamer); ok && name == "" {
@@ -98,13 +110,23 @@ func (s *c19Srv) serve(w *sim.World) {
 func echoExchange(cl interface {
 	DialContext(context.Context) (net.Conn, error)
 }, total, chunk int, firstSize int) (echoed int, firstErr error, readErr error) {
+	echoed, firstErr, readErr, conn := echoExchangeKeep(cl, total, chunk, firstSize)
+	if conn != nil {
+		conn.Close()
+	}
+	return
+}
+
+// echoExchangeKeep is echoExchange that leaves the session open and returns it.
+func echoExchangeKeep(cl interface {
+	DialContext(context.Context) (net.Conn, error)
+}, total, chunk int, firstSize int) (echoed int, firstErr error, readErr error, conn net.Conn) {
 	ctx, cancel := context.WithTimeout(context.Background(), 30*time.Second)
 	defer cancel()
 	conn, err := cl.DialContext(ctx)
 	if err != nil {
-		return 0, err, nil
+		return 0, err, nil, nil
 	}
-	defer conn.Close()
 	done := make(chan struct{})
 	go func() {
 		defer close(done)
@@ -142,7 +164,7 @@ func echoExchange(cl interface {
 	case <-done:
 	case <-time.After(30 * time.Second):
 	}
-	return echoed, firstErr, readErr
+	return echoed, firstErr, readErr, conn
 }
 
 func c19EndpointRun(c *core.Ctx, k c19EPCase) {
@@ -151,7 +173,7 @@ func c19EndpointRun(c *core.Ctx, k c19EPCase) {
 	q := func(mb int32) []*appctlpb.Quota {
 		return []*appctlpb.Quota{{Days: proto.Int32(1), Megabytes: proto.Int32(mb)}}
 	}
-	w, err := sim.NewWorld(sim.Config{UDP: k.UDP, Seed: k.Seed, Users: []sim.User{
+	w, err := sim.NewWorld(sim.Config{UDP: k.UDP, Seed: k.Seed, Multiplex: k.Multiplex, Users: []sim.User{
 		{Name: limited, Password: "pw-a", Quotas: q(1)},
 		{Name: free, Password: "pw-b"},
 		{Name: roomy, Password: "pw-c", Quotas: q(64)},
@@ -161,7 +183,7 @@ func c19EndpointRun(c *core.Ctx, k c19EPCase) {
 		return
 	}
 	defer bgClose.Go(w.Close)
-	srv := &c19Srv{read: map[string]int{}, wrote: map[string]int{}}
+	srv := &c19Srv{appRead: k.AppRead, read: map[string]int{}, wrote: map[string]int{}}
 	go srv.serve(w)
 	clFree, _ := w.NewClient(1, nil)
 	clRoomy, _ := w.NewClient(2, nil)
@@ -175,7 +197,14 @@ func c19EndpointRun(c *core.Ctx, k c19EPCase) {
 		up1++ // odd totals: one extra byte that is not echoed is impossible with an echo server; round up
 		target = 2 * up1
 	}
-	echoed, werr, _ := echoExchange(w.Client, up1, 32768, 0)
+	echoed, werr, _, first := echoExchangeKeep(w.Client, up1, 32768, 0)
+	if first != nil {
+		if k.KeepOpen {
+			defer first.Close()
+		} else {
+			first.Close()
+		}
+	}
 	if echoed != up1 || werr != nil {
 		c.Violate("C19/endpoint/transfer-within-allowance-failed", fmt.Sprintf("limited user's first session (within its allowance when it was opened) echoed %d of %d bytes (write err %v)", echoed, up1, werr), k)
 		return
@@ -211,7 +240,15 @@ func c19EndpointRun(c *core.Ctx, k c19EPCase) {
 	srv.mu.Lock()
 	before := srv.read[limited]
 	srv.mu.Unlock()
+	w.Net.Lock()
+	streamsBefore := len(w.Net.Streams)
+	w.Net.Unlock()
 	pe, _, rerr := echoExchange(w.Client, 2000, 1000, k.FirstSize)
+	if !k.UDP {
+		w.Net.Lock()
+		c.Hist("probe_session_connection", map[bool]string{true: "shared-with-earlier-session", false: "own-connection"}[len(w.Net.Streams) == streamsBefore])
+		w.Net.Unlock()
+	}
 	time.Sleep(100 * time.Millisecond)
 	srv.mu.Lock()
 	delivered := srv.read[limited] - before
@@ -263,11 +300,21 @@ func init() {
 				if !c.Thorough() && (i+fs)%2 == 1 && d != 0 && d != -2 {
 					continue
 				}
-				cases = append(cases, c19EPCase{Seed: c.Rand.Int63(), UDP: (i+fs/10)%2 == 1, Delta: d, FirstSize: fs})
+				k := c19EPCase{Seed: c.Rand.Int63(), UDP: (i+fs/10)%2 == 1, Delta: d, FirstSize: fs}
+				k.AppRead = []int{0, 1000, 333, 4096}[len(cases)%4]
+				if len(cases)%3 != 0 {
+					k.Multiplex, k.KeepOpen = 1+len(cases)%3, true
+				}
+				cases = append(cases, k)
 			}
 		}
 		// corpus first: the repaired piggy-back defect (refused session, 10-byte first write)
-		cases = append([]c19EPCase{{Seed: 1031111469539453589, UDP: false, Delta: 0, FirstSize: 10}, {Seed: 77, UDP: true, Delta: 2, FirstSize: 1024}}, cases...)
+		cases = append([]c19EPCase{{Seed: 1031111469539453589, UDP: false, Delta: 0, FirstSize: 10}, {Seed: 77, UDP: true, Delta: 2, FirstSize: 1024},
+			// always: an over-quota user's later session on an already authenticated TCP connection, and
+			// server applications that read a segment's payload in several pieces
+			{Seed: c.Rand.Int63(), UDP: false, Delta: 2, FirstSize: 10, Multiplex: 2, KeepOpen: true, AppRead: 333},
+			{Seed: c.Rand.Int63(), UDP: false, Delta: 200000, FirstSize: 1500, Multiplex: 3, KeepOpen: true},
+			{Seed: c.Rand.Int63(), UDP: true, Delta: 0, FirstSize: 1500, Multiplex: 1, KeepOpen: true, AppRead: 1000}}, cases...)
 		c.Sample(cases[0])
 		core.Parallel(len(cases), 6, func(i int) {
 			c.Eval(fmt.Sprintf("c19-endpoint/%d/%d/%v", cases[i].Delta, cases[i].FirstSize, cases[i].UDP), true)
